@@ -234,11 +234,15 @@ PROPS = {
                         "well-formedness excludes 'no byte range but offset > 0' (sequential writer then returns more than it wrote, theorem C17_seq_reported_edge)"],
     },
     "C05": {
-        "modules": ["XetProps.C05"],
+        "modules": ["XetProps.C05", "XetProps.C05Manager"],
         "theorems": [
             "Xet.Shard.C05_mem_loop", "Xet.Shard.C05_mem_zero_iff", "Xet.Shard.C05_lookup_invariant", "Xet.Shard.C05_mem",
             "Xet.Shard.C05_truthful_index", "Xet.Shard.C05_direct", "Xet.Shard.C05_disk", "Xet.Shard.C05_first_n",
             "Xet.Shard.C05_disk_wf", "Xet.Shard.C05_disk_wf_candidates",
+            "Xet.Shard.C05_manager", "Xet.Shard.C05_manager_first_n", "Xet.Shard.C05_manager_invariants",
+            "Xet.Shard.C05_manager_invariants_step", "Xet.Shard.C05_manager_invariants_preserved",
+            "Xet.Shard.C05_manager_reachable", "Xet.Shard.C05_manager_wf", "Xet.Shard.C05_manager_wf_unkeyed",
+            "Xet.Shard.DirectTruthful.first_n",
         ],
         "suites": ["shard", "manager"],
         "level_text": "In-memory index: for every shard reachable from the empty one by add_cas_block / add_file_reconstruction_info / union / "
@@ -246,14 +250,20 @@ PROPS = {
                       "X.chunks[start+i].hash = q[i], fse.bytes = sum of those lengths. On-disk readers: for EVERY byte string, footer, HMAC key and "
                       "EVERY candidate list (so truncated-prefix collisions and arbitrary chunk-table contents are covered by construction) an answer "
                       "of chunk_hash_dedup_query(_direct) names n records carrying keyed(q[0..n)) in order with bytes = their summed lengths; on "
-                      "serialize(m) of a well-formed m the named block is a block of m. The shard-manager layer (collections, keyed shards) is "
-                      "covered by differential runs only in this revision.",
+                      "serialize(m) of a well-formed m the named block is a block of m. Shard manager: for EVERY manager state (arbitrary lookup "
+                      "tables, shard lists, bytes) an answer is the in-memory answer or the direct answer on the bytes of a registered shard at a "
+                      "table element (C05_direct applies, records keyed with that shard's footer key). On states reachable by add_cas_block / "
+                      "add_file_reconstruction_info / flush / register_shards (any bytes; consolidation products enter through register_shards) "
+                      "every shard carries its collection's key, every table element names an existing shard and a row of its truncated-hash "
+                      "listing (<= 2^16 shards per collection), and over shard files (serialized well-formed contents, keyed exports with any of "
+                      "the 8 flag combinations) the answer is Truthful for a block of the answering shard under the collection's key.",
         "design_ref": "DESIGN.md section 4, C05",
         "technique": "Lean 4 proof (loop invariants over the code-shaped query loops; arbitrary bytes / candidates) + differential correspondence",
         "rule": "shard: 12-40 queries per generated shard: present runs, absent, partially matching, running past the xorb end, length 1, starting "
                 "at the last chunk, same truncated prefix with different hash; candidates as returned by the real table search; distinct by "
                 "shard content hash; non-trivial = shard has >= 2 records",
-        "assumptions": ["chunk_hash_dedup_query_direct with a (cas index, offset) hint past the block end is outside the claim (rows of a legal chunk table never are)",
+        "assumptions": ["RowsValid / C05_manager_wf: at most 2^16 shards per collection (shard_index is stored as u16)",
+                        "chunk_hash_dedup_query_direct with a (cas index, offset) hint past the block end is outside the claim (rows of a legal chunk table never are; with the manager theorems this only concerns non-reachable states / bytes that are not shard files)",
                         "the in-memory answer names the block the lookup map holds (may outlive a replaced cas_content entry, as in the Rust)"],
     },
     "C14": {
@@ -358,17 +368,22 @@ PROPS = {
         "assumptions": ["as C01"],
     },
     "C11": {
-        "modules": ["XetProps.C11"],
-        "theorems": ["Xet.Dedup.C11_recorded", "Xet.Dedup.C11_recorded_always", "Xet.Dedup.C11_chunks_recorded"],
+        "modules": ["XetProps.C11", "XetProps.C11Manager"],
+        "theorems": ["Xet.Dedup.C11_recorded", "Xet.Dedup.C11_recorded_always", "Xet.Dedup.C11_chunks_recorded",
+                     "Xet.Shard.C11_lookup_complete", "Xet.Shard.C11_lookup_complete_register", "Xet.Shard.C11_flush_finds",
+                     "Xet.Shard.C11_flush_mem_empty"],
         "suites": ["session", "manager"],
         "level_text": "For every history, legal or not: every xorb handed to the store (cut mid-file or from the session aggregator, incl. the final "
-                      "one) has its CAS info registered with the session shard, and every chunk of it is in that info. The second half (a later session "
-                      "finds it and transfers no new chunk bytes) goes through ShardFileManager, which is not modelled in this revision: it is checked "
-                      "on real stores by re-uploading earlier files unchanged in later sessions (partial).",
+                      "one) has its CAS info registered with the session shard, and every chunk of it is in that info. Lookup completeness of ShardFileManager "
+                      "is proved: a chunk at offset <= u16::MAX of a block of a serialized well-formed shard registered under a new name below the "
+                      "index cap is found in every later state (n >= 1, the block and position named, truthful), and after add_cas_block + flush "
+                      "every chunk of the block is found - under explicit side conditions, each shown necessary by an example. The end-to-end "
+                      "half (a later session re-uploading the content transfers no new chunk bytes) composes these through the real session code "
+                      "and is checked on real multi-session stores (partial: that composition is a monitor, not a theorem).",
         "design_ref": "DESIGN.md section 4, C01..C11",
         "technique": "Lean 4 proof + differential correspondence / monitor on real multi-session stores",
         "rule": "as C01; about half of the later sessions re-upload earlier files unchanged and must report new_bytes = 0",
-        "assumptions": ["shard manager lookup completeness (no truncated-prefix collision, offsets <= u16::MAX, index below its cap) is not a theorem here"],
+        "assumptions": ["C11_lookup_complete side conditions (each shown necessary by an example): no other chunk of the shard shares the truncated 64-bit prefix; the hash is recorded once in the shard; no other shard of collection 0 (except byte-identical copies) lists an insertable row with that prefix; offset <= u16::MAX; <= 2^16 shards in collection 0; total_indexed_chunks < CHUNK_INDEX_TABLE_MAX_SIZE at registration; new shard name; the in-memory shard does not answer first; C11_flush_finds additionally: the in-memory content is Mem.WF"],
     },
     "C12": {
         "modules": ["XetProps.C12"],
@@ -540,7 +555,7 @@ PROPS = {
                         "non-store error exits (permit, add_cas_block, shard flush) are not modelled"],
     },
     "C18": {
-        "modules": ["XetProps.C18"],
+        "modules": ["XetProps.C18", "XetProps.C18Manager"],
         "theorems": [
             "Xet.Shard.C18_expiry",
             "Xet.Shard.C18_expiry_not_loaded",
@@ -562,6 +577,9 @@ PROPS = {
             "Xet.Shard.C18_dedup_no_chunk_table",
             "Xet.Shard.C18_dedup_truthful",
             "Xet.Shard.C18_dedup_truthful_raw",
+            "Xet.Shard.C18_dedup_preserved_manager", "Xet.Shard.C18_dedup_preserved_manager_spec",
+            "Xet.Shard.C18_dedup_preserved_manager_iff", "Xet.Shard.C18_fresh_manager", "Xet.Shard.C18_manager_truthful",
+            "Xet.Shard.C18_manager_rows",
         ],
         "suites": ["keyed", "manager"],
         "level_text": "For every well-formed shard, key, time and all eight include-flag combinations: exportKeyed(serialize m) equals the closed-form "
@@ -569,13 +587,16 @@ PROPS = {
                       "xorb and file hashes kept, file records kept or dropped as requested, tables present as requested, footer key/creation/"
                       "expiry/totals; parsed back it is exactly that content; no raw chunk hash survives unless it equals a keyed form. Dedup "
                       "lookups with unkeyed hashes on the exported shard give the same answer as on the source under no-collision hypotheses on "
-                      "the query, and are truthful always. Expiry: exact truth table of loaded/deleted incl. saturation. The shard-manager layer is "
-                      "covered by the suite's monitors only (partial).",
+                      "the query, and are truthful always. Expiry: exact truth table of loaded/deleted incl. saturation. Through the shard manager: registering the "
+                      "real export (all 8 flag combinations; with the chunk table dropped register_shards rebuilds the rows by scanning) instead "
+                      "of the source shard into any manager that answers not-found gives the same answer to an unkeyed query, under "
+                      "NoTruncCollision, NoDuplicateChunk, KeyedInjOn and chunk offsets <= u16::MAX; without them both answers are truthful.",
         "design_ref": "DESIGN.md section 4, C18",
         "technique": "Lean 4 proof (closed form of the export, lifted through the C09 round trip) + byte-exact differential correspondence",
         "rule": "24 [250] shards x 8 flag combinations x zero/random key x validity 0..21 days; byte scan for raw chunk hashes; dedup queries before/"
                 "after; expiry by patching the footer of a copy to now+-d, 0, u64::MAX with grace 0/10/1000/u64::MAX",
-        "assumptions": ["creation time is read from the produced footer (clock is an oracle)", "expiry arithmetic saturates in the model; the Rust panics for validity >= ~9.2e18 s (SystemTime overflow), not exercised"],
+        "assumptions": ["C18_dedup_preserved_manager: base manager answers not-found to the query, < 2^16 shards per collection, both registrations under new names with the index below its cap",
+                        "creation time is read from the produced footer (clock is an oracle)", "expiry arithmetic saturates in the model; the Rust panics for validity >= ~9.2e18 s (SystemTime overflow), not exercised"],
     },
 }
 
